@@ -5,7 +5,11 @@ import Bptk.Core.C18
                             refusalKeepsLock)
 `run <stop> <kinds> <sched>`  kinds: comma list of `p` (run-step) | `r<n>` (run-steps n) | `s` (stream);
                               sched: comma list of `<tid><g|f|x>` (go | fail | gone) or `-`
-reply: `<labels>|<st:res:msgs:holds:pc per thread, ';'>|clock=<n>;lock=<0|1>;produced=<list>` -/
+reply: `<labels>|<st:res:msgs:holds:pc per thread, ';'>|clock=<n>;lock=<0|1>;produced=<list>`
+`srun a b d x <session0> <n> <events>`  session machine: 0/1 flagOnInstance lockNeedsSession unlockNeedsSession
+                              sessionReqExcluded, initial session 0/1, number of requests, events `a<i>` (acquire) `f<i>` (end)
+                              `E` (end-session) `B` (begin-session) `R` (restore) or `-`
+reply: `<outcome per event, ','>|flag=<0|1>;holders=<n>` -/
 open Bptk.C18
 
 def parseKind (s : String) : Option Kind :=
@@ -38,12 +42,25 @@ def thStr (t : Thread) : String :=
 
 def b01 (s : String) : Option Bool := if s == "1" then some true else if s == "0" then some false else none
 
+def parseSEv (s : String) : Option Sess.SEv :=
+  if s == "E" then some .endS else if s == "B" then some .beginS else if s == "R" then some .restoreS
+  else if s.startsWith "a" then (s.drop 1).toNat?.map .acq
+  else if s.startsWith "f" then (s.drop 1).toNat?.map .fin
+  else none
+
 def stepLine (c : Cfg) (line : String) : Cfg × String :=
   match line.trimAscii.toString.splitOn " " with
   | ["cfg", a, b, d, e, f, g] =>
       match b01 a, b01 b, b01 d, b01 e, b01 f, b01 g with
       | some a, some b, some d, some e, some f, some g => (⟨a, b, d, e, f, g⟩, "ok")
       | _, _, _, _, _, _ => (c, "bad-op")
+  | ["srun", a, b, d, x, s0, n, evs] =>
+      match b01 a, b01 b, b01 d, b01 x, b01 s0, n.toNat?,
+            (if evs == "-" then some [] else (evs.splitOn ",").mapM parseSEv) with
+      | some a, some b, some d, some x, some s0, some n, some evs =>
+          let r := Sess.strace ⟨a, b, d, x⟩ evs (Sess.SState.init s0 n)
+          (c, ",".intercalate r.2 ++ s!"|flag={if r.1.flag then 1 else 0};holders={Sess.holders r.1}")
+      | _, _, _, _, _, _, _ => (c, "bad-op")
   | ["run", stop, kinds, sched] =>
       match stop.toNat?, (kinds.splitOn ",").mapM parseKind,
             (if sched == "-" then some [] else (sched.splitOn ",").mapM parseAct) with
